@@ -239,4 +239,91 @@ theorem rangeOf_new (p : Nat → Cell → Bool) (cells : List Cell) (hsz : cells
     simp only [Range.new] at this
     omega
 
+/-! ### the mask -/
+
+def entryAt (c : Cache) (j : Nat) : Option Entry :=
+  entryOf (c.cells.getD j Cell.empty, c.rows.getD j default)
+
+theorem zip_eq_range {α β} (l1 : List α) (l2 : List β) (d1 : α) (d2 : β) (h : l1.length = l2.length) :
+    l1.zip l2 = (List.range l1.length).map (fun j => (l1.getD j d1, l2.getD j d2)) := by
+  apply List.ext_getElem
+  · simp [h]
+  · intro i h1 h2
+    simp only [List.length_zip] at h1
+    have ha : i < l1.length := by omega
+    have hb : i < l2.length := by omega
+    simp [List.getD_eq_getElem?_getD, List.getElem?_eq_getElem ha, List.getElem?_eq_getElem hb]
+
+theorem abs_eq_range (c : Cache) (hlen : c.cells.length = c.rows.length) :
+    abs c = (List.range c.cells.length).filterMap (entryAt c) := by
+  rw [abs, zip_eq_range c.cells c.rows Cell.empty default hlen, List.filterMap_map]
+  rfl
+
+theorem filter_filterMap' {α β} (f : α → Option β) (p : β → Bool) (l : List α) :
+    (l.filterMap f).filter p = l.filterMap (fun x => (f x).filter p) := by
+  induction l with
+  | nil => rfl
+  | cons a as ih =>
+    simp only [List.filterMap_cons]
+    cases h : f a with
+    | none => simp [ih]
+    | some b =>
+      by_cases hp : p b = true
+      · simp [List.filter_cons, hp, ih, Option.filter]
+      · simp only [Bool.not_eq_true] at hp
+        simp [List.filter_cons, hp, ih, Option.filter]
+
+theorem filterMap_filter' {α β} (f : α → Option β) (p : α → Bool) (l : List α) :
+    (l.filter p).filterMap f = l.filterMap (fun x => if p x then f x else none) := by
+  induction l with
+  | nil => rfl
+  | cons a as ih =>
+    by_cases hp : p a = true
+    · rw [List.filter_cons_of_pos hp, List.filterMap_cons, List.filterMap_cons, ih]
+      simp [hp]
+    · rw [List.filter_cons_of_neg hp, List.filterMap_cons, ih]
+      simp [hp]
+
+theorem filterMap_all_none {α β} (f : α → Option β) (l : List α) (h : ∀ x ∈ l, f x = none) :
+    l.filterMap f = [] := by
+  induction l with
+  | nil => rfl
+  | cons a as ih =>
+    simp only [List.filterMap_cons, h a (by simp)]
+    exact ih (fun x hx => h x (by simp [hx]))
+
+/-- outside `[lo, lo+len)` nothing is produced ⇒ scanning the window is scanning everything -/
+theorem filterMap_range_restrict {β} (g : Nat → Option β) (n lo len : Nat) (h1 : lo + len ≤ n)
+    (h2 : ∀ j, j < n → (j < lo ∨ lo + len ≤ j) → g j = none) :
+    (List.range n).filterMap g = (List.range' lo len).filterMap g := by
+  have hsplit : List.range n = List.range' 0 lo ++ (List.range' lo len ++ List.range' (lo + len) (n - (lo + len))) := by
+    rw [List.range_eq_range']
+    have e1 : List.range' lo len ++ List.range' (lo + len) (n - (lo + len)) = List.range' lo (len + (n - (lo + len))) := by
+      simpa using (List.range'_append_1 (s := lo) (m := len) (n := n - (lo + len)))
+    have e2 : List.range' 0 lo ++ List.range' lo (len + (n - (lo + len))) = List.range' 0 (lo + (len + (n - (lo + len)))) := by
+      simpa using (List.range'_append_1 (s := 0) (m := lo) (n := len + (n - (lo + len))))
+    rw [e1, e2]
+    congr 1
+    omega
+  rw [hsplit, List.filterMap_append, List.filterMap_append]
+  rw [filterMap_all_none g (List.range' 0 lo), filterMap_all_none g (List.range' (lo + len) _)]
+  · simp
+  · intro x hx
+    simp only [List.mem_range'_1] at hx
+    exact h2 x (by omega) (Or.inr hx.1)
+  · intro x hx
+    simp only [List.mem_range'_1] at hx
+    exact h2 x (by omega) (Or.inl (by omega))
+
+/-- one mask entry is the spec's visibility test on the entry found at that location -/
+theorem maskBit_entryAt (c : Cache) (t : Tok) (j : Nat) :
+    (if maskBit c t j then entryAt c j else none) = (entryAt c j).filter (vis c.window t.seq t.pos) := by
+  unfold maskBit entryAt entryOf vis
+  generalize c.cells.getD j Cell.empty = cell
+  generalize c.rows.getD j default = row
+  obtain ⟨pos, seqs⟩ := cell
+  by_cases h0 : seqs = []
+  · subst h0; simp
+  · simp only [h0, if_false, Option.filter]
+
 end OllamaVerif.Causal
